@@ -19,6 +19,7 @@ namespace c14
         ticks = 0;
         blocks = 0;
         block_exceeded = false;
+        stack_exceeded = false;
         block_pc = nullptr;
         exceeded_site = -1;
         for (int i = 0; i < n_sites; ++i)
@@ -59,6 +60,15 @@ extern "C" void __sanitizer_cov_trace_pc()
     c14::Clock& c = c14::tick_clock();
     ++c.blocks;
     ++c.blocks_total;
+    char probe;
+    if (c.armed && c.sp0 && (uint64_t)(c.sp0 - &probe) > c.stack_budget && c.sp0 > &probe)
+    {
+        c.stack_exceeded = true;
+        c.block_exceeded = true;
+        c.block_pc = __builtin_return_address(0);
+        c.armed = false;
+        longjmp(c.jb, 1);
+    }
     if (c.armed && c.blocks > c.block_budget)
     {
         c.block_exceeded = true;
